@@ -119,3 +119,96 @@ for (cls, npar, ns) in NATIVE_GATES:
 native("C02", "c02_preps", "native/c02_preps.py",
        bound="Gaussian preparation: all decomposition branches, squeezing angle over [-pi,pi] in 9 (quick) / 25 (thorough) steps, 1- and 2-mode targets in every order on a correlated 3-mode register",
        timeout=900)
+
+
+# =====================================================================================
+# Gaussian._decompose, the branches that do NOT go through the Williamson factor: a diagonal covariance matrix with
+# SYMBOLIC entries (1 and 2 modes; shape-bounded).  Precondition: V is a covariance matrix (positive diagonal,
+# Vxx Vpp >= 1 per mode) and `pure` is what __init__ computes from it.  Postcondition, whenever the returned commands
+# are single-mode preparations only: mode n is prepared with variances (V[n,n], V[n+ns,n+ns]) - within the elision
+# tolerance where the code prepares vacuum instead - and displaced by the requested means.
+#   Thermal(nbar) -> variances (2 nbar + 1, 2 nbar + 1);  Vacuum -> (1, 1);
+#   Squeezed(r, phi) with phi in {0, pi} -> (e^{-2r}, e^{2r}) resp. (e^{2r}, e^{-2r}); the exponential is abstracted by
+#   the engine (MathAbs), the clause checked there is the choice of the branch: r = |log(Vxx)| / 2, phi = 0 iff Vxx < 1.
+# =====================================================================================
+def _gaussian_diag(ns, pure):
+    def fn(h):
+        import numpy as _np
+        ops, pu = h.module(OPS), h.module("strawberryfields.program_utils")
+        tol = ops._decomposition_tol
+        D = [h.real(f"D{k}") for k in range(2 * ns)]
+        for k in range(ns):
+            h.require(And(D[k] > 0, D[k + ns] > 0, D[k] * D[k + ns] >= 1))
+        V = _np.zeros((2 * ns, 2 * ns), dtype=object)
+        for k in range(2 * ns):
+            V[k, k] = D[k]
+        r = _np.array([h.real(f"r{k}") for k in range(2 * ns)], dtype=object)
+        if pure:
+            # a pure diagonal covariance matrix: every mode saturates the uncertainty relation
+            for k in range(ns):
+                h.require(D[k] * D[k + ns] == 1)
+        else:
+            h.require(Or(*[D[k] * D[k + ns] > 1 + 1e-3 for k in range(ns)]))
+        op = h.new(ops.Gaussian, p=[V, r], ns=ns, pure=pure, decomp=True, x_disp=r[:ns], p_disp=r[ns:],
+                   nbar=_np.array([h.real(f"williamson_nbar{k}") for k in range(ns)], dtype=object), S="WILLIAMSON-S", _measurement_deps=set())
+        reg = [pu.RegRef(k) for k in range(ns)]
+
+        class GaussianTransform:            # the general branch (Williamson factor) is not evaluated here
+            def __init__(self, S, vacuum=False):
+                self.p = [S]
+        with h.stubbed(ops, "GaussianTransform", GaussianTransform):
+            out = h.call(op._decompose, reg)
+        h.ensure("no-exception", out.returned, bounded_shape=True)
+        if not out.returned:
+            return
+        cmds = out.value
+        if any(type(c.op).__name__ == "GaussianTransform" for c in cmds):
+            h.cover("general-branch-reached")
+            return
+        preps = {}
+        disp = {}
+        for c in cmds:
+            nm, (m,) = type(c.op).__name__, [x.ind for x in c.reg]
+            if nm in ("Thermal", "Vacuum", "Squeezed"):
+                h.ensure(f"mode{m}.prepared-once", m not in preps, bounded_shape=True)
+                preps[m] = c.op
+            elif nm in ("Xgate", "Zgate"):
+                disp[(nm, m)] = c.op.p[0]
+            else:
+                h.ensure(f"unexpected-command-{nm}", False, bounded_shape=True)
+        for n in range(ns):
+            h.ensure(f"mode{n}.prepared", n in preps, bounded_shape=True)
+            if n not in preps:
+                continue
+            o = preps[n]
+            nm = type(o).__name__
+            if nm == "Thermal":
+                v = 2 * o.p[0] + 1
+                h.ensure(f"mode{n}.thermal.x-variance", eqv(v, D[n]), bounded_shape=True)
+                h.ensure(f"mode{n}.thermal.p-variance", eqv(v, D[n + ns]), bounded_shape=True)
+            elif nm == "Vacuum":
+                h.ensure(f"mode{n}.vacuum.x-variance-within-elision-tolerance", abs(D[n] - 1) <= 2 * tol, bounded_shape=True)
+                h.ensure(f"mode{n}.vacuum.p-variance-within-elision-tolerance", abs(D[n + ns] - 1) <= 4 * tol, bounded_shape=True)
+            else:
+                rr, phi = o.p
+                h.ensure(f"mode{n}.squeezed.only-for-a-pure-state", pure, bounded_shape=True)
+                h.ensure(f"mode{n}.squeezed.axis-is-x-or-p", phi in (0, _np.pi), bounded_shape=True)
+                m_ = h.eng.math
+                vx = m_.exp(-2 * rr) if phi == 0 else m_.exp(2 * rr)
+                vp = m_.exp(2 * rr) if phi == 0 else m_.exp(-2 * rr)
+                h.ensure(f"mode{n}.squeezed.x-variance", eqv(vx, D[n]), bounded_shape=True)
+                h.ensure(f"mode{n}.squeezed.p-variance", eqv(vp, D[n + ns]), bounded_shape=True)
+                if phi == 0:
+                    h.ensure(f"mode{n}.squeezed.x-squeezed-iff-x-variance-below-vacuum", D[n] < 1, bounded_shape=True)
+                else:
+                    h.ensure(f"mode{n}.squeezed.p-squeezed-iff-x-variance-above-vacuum", D[n] >= 1, bounded_shape=True)
+            h.ensure(f"mode{n}.x-displacement", eqv(disp.get(("Xgate", n), 0), r[n]), bounded_shape=True)
+            h.ensure(f"mode{n}.p-displacement", eqv(disp.get(("Zgate", n), 0), r[n + ns]), bounded_shape=True)
+    fn.__name__ = ""
+    return fn
+
+
+for _ns in (1, 2):
+    for _pure in (False, True):
+        PROOFS.append(Proof("C02", f"{OPS}:Gaussian._decompose", _gaussian_diag(_ns, _pure),
+                            name=f"Gaussian._decompose/diagonal-covariance/{_ns}-mode/{'pure' if _pure else 'mixed'}"))
